@@ -89,6 +89,11 @@ def focus(ctx, P):
     if b is not None:
         rdom(ctx, P + ':focus:gnupg-constructor-checks-key-length', b, call_blocks(b, r'aead_setup_gnupg$'), [r'call:.*SymmetricKeyAlgorithm::key_size$', r'call:.*len$|op:PtrMetadata'],
              'StreamDecryptor::new_gnupg compares key.len() with sym_alg.key_size() before the key is used as the AEAD key (which is sliced [..key_size])')
+    # finalize_data splits the buffer at `len - MDC_LEN`: every protected arm of fill_data has refused a shorter buffer before (shared with C03)
+    fb = ctx.body('crypto::sym::decryptor::StreamDecryptorInner::<M, R>::fill_data')
+    if fb is not None:
+        from rules import c03
+        c03.holdback(ctx, P, fb)
     # the IV / nonce of a locked secret key is handed to CFB / AEAD primitives that assert its exact size
     # (`GenericArray::from_slice`): the parser must size it by the algorithm's own accessor, never by a length octet of the packet
     b = ctx.body('types::params::secret::parse_secret_fields')
